@@ -2,7 +2,7 @@
 REG = dict(
     engine='E2-bfs',
     technique='bounded-exhaustive enumeration of request histories (setup x failing site x further step x :abort x probe) replayed on the real JSON-session handler; differential against a fresh session of the same implementation and against the session itself before the failing request',
-    text="Histories = (subset of 3 definitions and 2 top-level lets, each its own request; quick: empty/singletons/all, thorough: all 32) x (failing request: error at call depth 0-3 x inside {no block, if, while, for, match arm}, a fresh local at every level, preceded or not by a completed top-level let in the same request) x (nothing | :replace 5 | :skip | a second failing request) x :abort x probes, every probe in its own session. Oracle (a): every name of the history, `1 + 2` and a call of every defined function answer exactly as a fresh session that received only the definitions and `let name = literal` for the top-level variables. Oracle (b): :stack shows only the top-level frame, :fstmts is empty, :fvalues is a prefix of its value before the failing request, :locals = before-snapshot + completed top-level lets of the failing request, :resume answers as in an idle session.",
+    text="Histories = (subset of 3 definitions and 2 top-level lets, each its own request; quick: empty/singletons/all, thorough: all 32) x (failing request: error at call depth 0-3 x inside {no block, if, while, for, match arm, a prelude function's frame}, a fresh local at every level, preceded or not by a completed top-level let in the same request) x (nothing | :replace 5 | :skip | a second failing request | an expression evaluated while stopped) x :abort x probes, every probe in its own session. Oracle (a): every name of the history, `1 + 2` and a call of every defined function answer exactly as a fresh session that received only the definitions and `let name = literal` for the top-level variables. Oracle (b): :stack shows only the top-level frame, :fstmts is empty, :fvalues is a prefix of its value before the failing request, :locals = before-snapshot + completed top-level lets of the failing request, :resume answers as in an idle session.",
     note="Value-stack sizes are never compared across sessions. Histories whose further step (:skip/:replace) panics before :abort are C09's subject and are only counted. 'Top-level variables' includes lets of the aborted request that completed at top level (DESIGN.md §5).",
     design_ref='DESIGN.md §6 C10',
 )
@@ -20,13 +20,16 @@ DEFS = [  # (request, names occurring, call probes)
     ('struct P { y: Int }', ["y"], ["P{ y: 1 }"]),
 ]
 LETS = [("v", "10"), ("w", '"s"')]
-BLOCKS = ["none", "if", "while", "for", "match"]
-FURTHER = ["none", ":replace 5", ":skip", "second-failure"]
+BLOCKS = ["none", "if", "while", "for", "match", "prelude-frame"]
+FURTHER = ["none", ":replace 5", ":skip", "second-failure", "in-context evaluation"]
 ANSI = re.compile(r"\x1b\[[0-9;]*m")
 
 
 def site_body(kind, src):
     """Statements that bind a fresh local `e1` inside a block of the given kind and then raise."""
+    if kind == "prelude-frame":
+        # the error is raised inside a function of another namespace (the prelude's `or_throw`), whose frame is on top when the session stops
+        return f'let e1 = {src} None.or_throw()'
     if kind == "none":
         return f'let e1 = {src} throw("boom")'
     if kind == "if":
@@ -154,11 +157,13 @@ def run(ctx):
                 for pre_let in (False, True):
                     call = f"c{depth}(7)" if depth else site_body(kind, "7") + " 0"
                     failing = ("let t0 = 5 " if pre_let else "") + call
-                    completed = ([("t0", "5")] if pre_let else []) + ([("e1", "7")] if depth == 0 and kind == "none" else [])
+                    completed = ([("t0", "5")] if pre_let else []) + ([("e1", "7")] if depth == 0 and kind in ("none", "prelude-frame") else [])
                     for further in FURTHER:
                         steps = []
                         if further == "second-failure":
                             steps = ['c1(8)' if depth else '1 + throw("again")']
+                        elif further == "in-context evaluation":
+                            steps = ["1 + 2"]
                         elif further != "none":
                             steps = [further]
                         hist = setup + [failing] + steps + [":abort"]
@@ -202,7 +207,7 @@ def run(ctx):
                 if a[0] != "Ok":
                     raise Machinery(f"setup request {c['hist'][i]!r} was not accepted: {a}")
             a_fail = answer(r0["responses"][n_setup])
-            if a_fail != ("Err", ("Exception: boom",)):
+            if a_fail not in (("Err", ("Exception: boom",)), ("Err", ("Exception: Called `or_throw` on a `None` value.",))):
                 raise Machinery(f"generated failing request {c['hist'][n_setup]!r} did not fail with `boom`: {a_fail}")
             if r0.get("panic") is not None:
                 # the further step (:skip / :replace / second request) panicked before :abort was reached: C09's subject
